@@ -254,6 +254,25 @@ func runC06paths(r resIface, cfg *c06cfg, rng *prng.R, scratch string, idx int) 
 			scriptsLoaded["sync"] = len(srv.Scripts)
 		}
 	}
+	// ---- 1c. full sync against a target that refuses the first SCRIPT LOAD with an error reply: the scripts of the file are
+	// not filtered (filter.lua unset), so a run that reports success must have loaded every one of them; reporting the
+	// failure (the caller then repeats the phase) is the other acceptable outcome
+	if !cfg.Lua && len(scripts) > 0 {
+		cfg.apply(baseConf())
+		srv, tcp := newTarget()
+		msg := []string{"BUSY Redis is busy running a script. You can only call SCRIPT KILL or SHUTDOWN NOSAVE.", "LOADING Redis is loading the dataset in memory", "OOM command not allowed when used memory > 'maxmemory'.", "READONLY You can't write against a read only replica."}[idx%4]
+		srv.Faults = append(srv.Faults, &miniredis.Fault{Cmd: "script", Nth: 1, Reply: miniredis.ErrReply(msg)})
+		node := &slot.SyncNode{Id: idx*10 + 3, Source: "127.0.0.1:1", Target: []string{tcp.Addr}, TargetPassword: e2eTgtPw, SlotLeftBoundary: -1, SlotRightBoundary: -1}
+		ds := dbSync.NewDbSyncer(node, -1, semaphore.NewWeighted(1))
+		err := ds.VerifSyncRDBFile(bufio.NewReaderSize(bytes.NewReader(data), 1<<16), []string{tcp.Addr}, "auth", e2eTgtPw, int64(len(data)), false)
+		r.Count("full_syncs_with_a_refused_script_load", 1)
+		srv.Mu.Lock()
+		loaded := len(srv.Scripts)
+		srv.Mu.Unlock()
+		if err == nil && loaded != len(scripts) {
+			r.Violation(sig("sync", "lua-script-missing-after-a-refused-load-and-a-reported-success"), fmt.Sprintf("sync path under %s: the target refused one SCRIPT LOAD (%q); the phase reported success with %d of %d Lua scripts on the target (filter.lua=false)", cfg.Name, msg, loaded, len(scripts)), cfg)
+		}
+	}
 	// ---- 1b. full sync of keys that reach the workers in several pieces: a hash above the 16 MiB chunk limit is handed
 	// to the parallel workers as consecutive records carrying the same key, and every one of them needs the key's verdict
 	if (len(cfg.KeyBlack) > 0 || len(cfg.KeyWhite) > 0) && (idx < 16 && (idx == 4 || idx == 6 || idx == 7) || idx >= 16 && idx%3 == 0) {
@@ -788,6 +807,7 @@ func c06(c *wk.Ctx) {
 	r.Floor("sync_runs_with_chunked_keys", 3)
 	r.Floor("restore_command_phase_runs", 12)
 	r.Floor("path_runs", 40)
+	r.Floor("full_syncs_with_a_refused_script_load", 5)
 	r.Floor("pairwise_agreements", 30)
 	r.Floor("predicate_evaluations", 100000)
 	r.Assume("in the incremental path the key decision exists only for commands of the tool's table (C13's wording); writes outside it are forwarded. Rump and the incremental path consult the key filter only when one is configured, so without a key filter they may copy the checkpoint key (the statement allows that).")
